@@ -75,18 +75,18 @@ func (u *UEPolicySectionManagementSubResult) SetPlmnDigit(mcc, mnc int) error {
 	if *u.Mnc < 9 || *u.Mcc > 999 {
 		return fmt.Errorf("MCC must be positive 2 or 3-digit, mnc:%d", u.Mnc)
 	}
-	// PlmnDigit1
-	u.PlmnDigit1 = (uint8((*u.Mcc%100)/10) << 4) | (uint8(*u.Mcc % 10))
-
-	// PlmnDigit2
+	// TS 24.008 10.5.1.3: octet 1 = MCC digit 2 | MCC digit 1, octet 2 = MNC digit 3 | MCC digit 3,
+	// octet 3 = MNC digit 2 | MNC digit 1, where digit 1 is the most significant decimal digit
+	mccDigit1, mccDigit2, mccDigit3 := uint8(*u.Mcc/100), uint8((*u.Mcc%100)/10), uint8(*u.Mcc%10)
+	var mncDigit1, mncDigit2, mncDigit3 uint8
 	if *u.Mnc < 100 {
-		u.PlmnDigit2 = (0xF0) | (uint8(*u.Mcc / 100))
+		mncDigit1, mncDigit2, mncDigit3 = uint8(*u.Mnc/10), uint8(*u.Mnc%10), 0x0F
 	} else {
-		u.PlmnDigit2 = (uint8(*u.Mnc/100) << 4) | (uint8(*u.Mcc / 100))
+		mncDigit1, mncDigit2, mncDigit3 = uint8(*u.Mnc/100), uint8((*u.Mnc%100)/10), uint8(*u.Mnc%10)
 	}
-
-	// PlmnDigit3
-	u.PlmnDigit3 = (uint8((*u.Mnc%100)/10) << 4) | (uint8(*u.Mnc % 10))
+	u.PlmnDigit1 = mccDigit2<<4 | mccDigit1
+	u.PlmnDigit2 = mncDigit3<<4 | mccDigit3
+	u.PlmnDigit3 = mncDigit2<<4 | mncDigit1
 
 	return nil
 }
@@ -161,13 +161,9 @@ func parseUEPlcSubResult(buf *bytes.Buffer) (*UEPolicySectionManagementSubResult
 	if mccDig3 > 9 {
 		return nil, fmt.Errorf("MCC Digit3 larger than 9")
 	}
-	if mncDig3 > 9 {
-		if mncDig3 == 15 {
-			// If a network operator decides to use only two digits in the MNC, MNC digit 3 shall be coded as "1111"
-			mncDig3 = 0
-		} else {
-			return nil, fmt.Errorf("MNC Digit3 larger than 9")
-		}
+	if mncDig3 > 9 && mncDig3 != 15 {
+		// 1111 means that the network operator uses only two digits in the MNC
+		return nil, fmt.Errorf("MNC Digit3 larger than 9")
 	}
 
 	// PlmnDigit3
@@ -185,8 +181,12 @@ func parseUEPlcSubResult(buf *bytes.Buffer) (*UEPolicySectionManagementSubResult
 	}
 	u.Mcc = new(int)
 	u.Mnc = new(int)
-	*u.Mcc = int(mccDig1) + int(mccDig2)*10 + int(mccDig3)*100
-	*u.Mnc = int(mncDig1) + int(mncDig2)*10 + int(mncDig3)*100
+	*u.Mcc = int(mccDig1)*100 + int(mccDig2)*10 + int(mccDig3)
+	if mncDig3 == 15 {
+		*u.Mnc = int(mncDig1)*10 + int(mncDig2)
+	} else {
+		*u.Mnc = int(mncDig1)*100 + int(mncDig2)*10 + int(mncDig3)
+	}
 
 	// UEPolicySectionManagementSubResultContents
 	if int(u.Len-3) < 0 {
